@@ -270,12 +270,10 @@ def v1_translation(prog: Program, rep: Report) -> None:
     # output variables: encoding.datatype <- ncformat, attributes <- the rest
     enc = []
     for f in prog.module("configure").functions.values():
-        for n in walk_no_nested(f.node):
-            if isinstance(n, ast.Assign) and ("['encoding']" in unparse(n.targets[0]) or "encoding=" in unparse(n.value) or "'encoding':" in unparse(n.value)) and ".pop('ncformat')" in unparse(n.value):
-                enc.append(n)
-            if isinstance(n, ast.Return) and n.value is not None and "encoding" in unparse(n.value) and ".pop('ncformat')" in unparse(n.value):
-                enc.append(n)
-    rep.check(rule, v1.qual, "output variables: encoding.datatype <- ncformat, attributes <- remaining keys", len(enc) >= 1 and all("datatype" in unparse(n.value) for n in enc), what_bad=f"{[short(n) for n in enc]}", what_ok="ok", loc=v1.loc())
+        src_f = unparse(f.node)
+        if ".pop('ncformat')" in src_f and "datatype" in src_f and "encoding" in src_f and "attributes" in src_f:
+            enc.append(f.qual)
+    rep.check(rule, v1.qual, "output variables: encoding.datatype <- ncformat, attributes <- remaining keys", len(enc) >= 1, what_bad="the v1 `ncformat` entry is not translated into encoding.datatype", what_ok=f"in {enc}", loc=v1.loc())
     loops = {unparse(n.iter): n for n in walk_no_nested(v1.node) if isinstance(n, ast.For)}
     rep.check(rule, v1.qual, "instance / particle output variable lists", "config['output_variables']['instance']" in loops and "config['output_variables']['particle']" in loops, what_bad=f"{list(loops)}", what_ok="ok", loc=v1.loc())
     for it, sec in (("config['output_variables']['instance']", "instance_variables"), ("config['output_variables']['particle']", "particle_variables")):
